@@ -6,9 +6,10 @@ H1  shape algebra of the real `CustomSD.correlation_2d_integral` over an uninter
     `TempoParameters`), matsubara -> real part.
 H2  integration regions / integrand orientation of `CustomCorrelations.correlation_2d_integral`
     (recording `integrate.dblquad`).
-H3  integrand algebra of the real `CustomSD.correlation` / `eta_function` closures: np.exp over
-    generator symbols with their relations; documented thermal / zero-T / Matsubara kernels,
-    C(-tau) = conj C(tau), overflow-guard branch bound, frequency ranges tile [0, inf).
+H3  integrand algebra of the real `CustomSD.correlation` / `eta_function` closures at omega in
+    {1, 2} and at a symbolic omega in [1/10, 6]: np.exp over generator symbols with their relations;
+    documented thermal / zero-T / Matsubara kernels, C(-tau) = conj C(tau), overflow-guard branch
+    bound, frequency ranges tile [0, inf).
 H4  `PowerLawSD` j-function (integer zeta) and equivalence with a `CustomSD` of the same j.
 H5  the three shapes of `CustomSD` equal the documented double integrals for every polynomial
     correlation function of degree <= 2 (E = double time integral of C, cf. H3).
